@@ -14,7 +14,7 @@ class Verdict:
     def __repr__(self): return f"{self.status}[{self.backend},{self.secs:.2f}s,lem={self.lemmas}]"
 
 UNIT_DEADLINE = [None]
-DEADLINE = [None]        # wall-clock cap per obligation (set by the outer prove): 4 x the per-query budget; past it every further query answers `unknown`
+DEADLINE = [None]        # wall-clock cap per obligation (set by the outer prove): 6 x the per-query budget; past it every further query answers `unknown`
 def _left_ms(timeout_ms):
     if DEADLINE[0] is None: return timeout_ms
     return int(max(0, min(timeout_ms, (DEADLINE[0] - time.time()) * 1000)))
@@ -199,7 +199,7 @@ def prove(pc, goal, timeout_ms=10000, axioms=True):
     """prove with one level of case splitting on ite-conditions of the goal (congruence lemmas may hold only per case)"""
     top = DEADLINE[0] is None
     if top:
-        DEADLINE[0] = time.time() + 4 * timeout_ms / 1000.0
+        DEADLINE[0] = time.time() + 6 * timeout_ms / 1000.0      # 6 x the per-query budget: the slowest obligation of the unchanged tree needs 1.8 x (C17 accepted_only_within_tolerance, 36 s on a 20 s budget), so a machine three times slower still decides it
         if UNIT_DEADLINE[0] is not None:
             # the unit's wall-clock budget (set by the worker): past it every remaining obligation of the unit is left undecided at once,
             # so that the verdicts obtained so far (incl. refutations with their counter-models) are reported instead of a worker timeout
